@@ -1,6 +1,8 @@
 import GoguVerif.Gen.Heap
 import GoguVerif.Model.Heap
 import GoguVerif.Lemmas.C03.Up
+import GoguVerif.Lemmas.C03.Sift
+import GoguVerif.Lemmas.C03.Build
 /-!
 # The regenerated tie for `heap/heap.go` (C03)
 
@@ -11,7 +13,12 @@ termination is not structural running on FUEL (`Out.hang` when it runs out).
 
 The theorems below state, for ALL comparators, slices, indices and ALL amounts of fuel, that the regenerated
 definition computes exactly the outcome (value, `panic` or `hang`) of the hand-written definition of
-`Model/Heap.lean`, which is what the theorems of C03 are about.  The model's indices are `Nat`; the
+`Model/Heap.lean`, which is what the theorems of C03 are about.  (Second part, added later: `moveDown` is
+fuel-independent too (`moveDownF_mono`, `moveDownF_enough`), so `Pop`, `Delete`, `Convert` are tied for EVERY
+sufficient fuel (`pop_tie_fuel`, `delete_tie`, `convert_tie`); `getIndex` — a `return` inside a loop, regenerated as
+`Option ρ × S` — is the model's structural scan (`getIndex_tie`); `FromSlice` is tied loop by loop for all fuel
+(`fromSlice_inner_tie`, `fromSlice_outer_tie`) and as a whole whenever the model does not hang, in particular for
+every strict weak order (`fromSlice_tie_partial`, `fromSlice_tie_swo`).  `Merge`, `Meld` are outside the fragment.)  The model's indices are `Nat`; the
 regenerated ones are `Int`: the ties are stated at `((i : Nat) : Int)` and, separately, a negative index is
 shown to panic (`…_neg`), which the model cannot even express.
 -/
@@ -469,5 +476,597 @@ theorem pushAll_tie [Inhabited α] [DecidableEq α] (h : Model.Heap.Heap α) (va
   exact bind_toOut_ok _
 
 example : (#[3, 1] : Array Int).size + (#[2, 0] : Array Int).size ≤ 4 := by decide
+
+
+/-! ## `moveDown`: an outcome other than `hang` does not depend on the fuel; `n - i + 1` is always enough -/
+
+theorem moveDownF_mono (c : Comp α) (n fuel k : Nat) (d : Array α) (i : Nat)
+    (h : Model.Heap.moveDownF c n fuel d i ≠ .hang) :
+    Model.Heap.moveDownF c n (fuel + k) d i = Model.Heap.moveDownF c n fuel d i := by
+  induction fuel generalizing d i with
+  | zero => simp [Model.Heap.moveDownF] at h
+  | succ fuel ih =>
+    have e : fuel + 1 + k = (fuel + k) + 1 := by omega
+    rw [e]
+    unfold Model.Heap.moveDownF at h ⊢
+    cases h1 : Model.Heap.pick c n d i (2 * i + 1) with
+    | none => rfl
+    | some cur =>
+      simp only [h1] at h ⊢
+      cases h2 : Model.Heap.pick c n d cur (2 * i + 2) with
+      | none => rfl
+      | some cur' =>
+        simp only [h2] at h ⊢
+        by_cases hne : cur' = i
+        · simp [hne]
+        · simp only [ne_eq, hne, not_false_eq_true, if_true] at h ⊢
+          cases hs : Model.Heap.swap d i cur' with
+          | none => rfl
+          | some d' =>
+            simp only [hs] at h ⊢
+            exact ih d' _ h
+
+example : Model.Heap.moveDownF (fun a b : Int => decide (a < b)) 2 3 #[3, 1] 0 ≠ .hang := by
+  simp [Model.Heap.moveDownF, Model.Heap.pick, Model.Heap.swap]
+
+/-- `moveDown(n, i)` never runs out of a budget `> n - i`: it recurses only on a child `< n` (no hypothesis on
+the comparator, the slice or `n`: a panic is an outcome other than `hang`). -/
+theorem moveDownF_ne_hang (c : Comp α) (n : Nat) (fuel : Nat) (d : Array α) (i : Nat) (hf : n - i < fuel) :
+    Model.Heap.moveDownF c n fuel d i ≠ .hang := by
+  induction fuel generalizing d i with
+  | zero => omega
+  | succ fuel ih =>
+    unfold Model.Heap.moveDownF
+    cases h1 : Model.Heap.pick c n d i (2 * i + 1) with
+    | none => simp
+    | some cur =>
+      simp only
+      cases h2 : Model.Heap.pick c n d cur (2 * i + 2) with
+      | none => simp
+      | some cur' =>
+        simp only
+        by_cases hne : cur' = i
+        · simp [hne]
+        · simp only [ne_eq, hne, not_false_eq_true, if_true]
+          cases hs : Model.Heap.swap d i cur' with
+          | none => simp
+          | some d' =>
+            simp only
+            have hr := GoguVerif.Lemmas.C03.choose_range h1 h2
+            exact ih d' cur' (by omega)
+
+example : (2 : Nat) - 0 < 3 := by decide
+
+/-- any fuel ≥ the model's `n - i + 1` gives the model's outcome -/
+theorem moveDownF_enough (c : Comp α) (n : Nat) (d : Array α) (i fuel : Nat) (hf : n - i + 1 ≤ fuel) :
+    Model.Heap.moveDownF c n fuel d i = Model.Heap.moveDown c n d i := by
+  unfold Model.Heap.moveDown
+  have h := moveDownF_ne_hang c n (n - i + 1) d i (by omega)
+  have := moveDownF_mono c n (n - i + 1) (fuel - (n - i + 1)) d i h
+  have e : n - i + 1 + (fuel - (n - i + 1)) = fuel := by omega
+  rw [e] at this
+  exact this
+
+example : (2 : Nat) - 0 + 1 ≤ 5 := by decide
+
+/-! ## `Pop` for every sufficient fuel -/
+
+/-- `Pop` with ANY fuel ≥ `len(data)`: the popped value and the new `data`, every outcome included. -/
+theorem pop_tie_fuel [Inhabited α] [DecidableEq α] (h : Model.Heap.Heap α) (fuel : Nat)
+    (hf : h.data.size ≤ fuel) :
+    Heap_Pop fuel h.comp h.data
+      = toOut (Outcome.map (fun r => (r.2, r.1.data)) (Model.Heap.pop h)) := by
+  unfold Heap_Pop Model.Heap.pop Heap_peek Heap_size
+  by_cases h0 : h.data.size = 0
+  · simp [h0, Outcome.map]
+  · have hne : ¬ ((h.data.size : Int) = 0) := by omega
+    have hl : (h.data.size : Int) - 1 = ((h.data.size - 1 : Nat) : Int) := by omega
+    have hz := hIdx_nat h.data 0
+    simp only [Int.natCast_zero] at hz
+    simp only [h0, hne, if_false, hz, hl, hIdx_nat]
+    cases h.data[0]? with
+    | none => cases h.data[h.data.size - 1]? <;> simp [Outcome.map]
+    | some val =>
+      cases h.data[h.data.size - 1]? with
+      | none => simp [Outcome.map]
+      | some last =>
+        have hs := hSet_nat h.data 0 last
+        simp only [Int.natCast_zero] at hs
+        simp only [bind_optOut_some, hs]
+        cases hset : Model.Heap.set? h.data 0 last with
+        | none => simp [Outcome.map]
+        | some d1 =>
+          simp only [bind_optOut_some, hSlice_dropLast]
+          cases hd : Model.Heap.dropLast? d1 with
+          | none => simp [Outcome.map]
+          | some d2 =>
+            have hsz : h.data.size = d2.size - 0 + 1 := by
+              unfold Model.Heap.set? at hset
+              unfold Model.Heap.dropLast? at hd
+              split at hset
+              · injection hset with hset
+                subst hset
+                split at hd
+                · simp at hd
+                · injection hd with hd
+                  subst hd
+                  simp at *
+                  omega
+              · simp at hset
+            have hmd := moveDown_tie h.comp fuel d2 d2.size 0
+            simp only [Int.natCast_zero] at hmd
+            simp only [bind_optOut_some]
+            rw [hmd, moveDownF_enough h.comp d2.size d2 0 fuel (by omega)]
+            cases Model.Heap.moveDown h.comp d2.size d2 0 <;> simp [Outcome.map]
+
+example : (#[3, 1] : Array Int).size ≤ 2 := by decide
+
+/-! ## `Convert`: the loop `for i := (h.size()-2)/2; i >= 0; i-- { h.moveDown(h.size(), i) }` -/
+
+/-- The regenerated loop of `Convert`, started at `i = k - 1`, against the model's structural `convertLoop c k`:
+every outcome, the final value of the loop variable (`-1`) included, for every fuel ≥ `len(data) + k + 1`
+(one unit per iteration, the `moveDown` inside runs on what remains). -/
+theorem convert_loop_tie_full [Inhabited α] [DecidableEq α] (c comp : Comp α) (k : Nat) :
+    ∀ (d : Array α) (fuel : Nat), d.size + k + 1 ≤ fuel →
+    Heap_Convert_loop1 c comp fuel d ((k : Int) - 1)
+      = Out.bind (toOut (Model.Heap.convertLoop c k d)) (fun d' => Out.ok (d', (-1 : Int))) := by
+  induction k with
+  | zero =>
+    intro d fuel hf
+    obtain ⟨f, rfl⟩ : ∃ f, fuel = f + 1 := ⟨fuel - 1, by omega⟩
+    simp [Heap_Convert_loop1, Model.Heap.convertLoop]
+  | succ k ih =>
+    intro d fuel hf
+    obtain ⟨f, rfl⟩ : ∃ f, fuel = f + 1 := ⟨fuel - 1, by omega⟩
+    have e1 : ((k + 1 : Nat) : Int) - 1 = (k : Int) := by omega
+    have e2 : (k : Int) ≥ 0 := by omega
+    rw [e1]
+    unfold Heap_Convert_loop1 Model.Heap.convertLoop Heap_size
+    simp only [e2, if_true, moveDown_tie]
+    rw [moveDownF_enough c d.size d k f (by omega)]
+    cases hm : Model.Heap.moveDown c d.size d k with
+    | ok d' =>
+      have hfr := (GoguVerif.Lemmas.C03.moveDown_frame hm).1
+      simp only [toOut_ok, bind_ok]
+      exact ih d' f (by rw [hfr]; omega)
+    | panic => simp
+    | hang => simp
+
+example : (#[3, 1, 2] : Array Int).size + 1 + 1 ≤ 5 := by decide
+
+/-- the data component alone -/
+theorem convert_loop_tie [Inhabited α] [DecidableEq α] (c comp : Comp α) (k : Nat) (d : Array α) (fuel : Nat)
+    (hf : d.size + k + 1 ≤ fuel) :
+    Out.bind (Heap_Convert_loop1 c comp fuel d ((k : Int) - 1)) (fun r => Out.ok r.1)
+      = toOut (Model.Heap.convertLoop c k d) := by
+  rw [convert_loop_tie_full c comp k d fuel hf]
+  cases Model.Heap.convertLoop c k d <;> simp
+
+example : (#[3, 1, 2] : Array Int).size + 1 + 1 ≤ 5 := by decide
+
+/-- a negative start: no iteration (needs one unit of fuel to find that out) -/
+theorem convert_loop_neg [Inhabited α] [DecidableEq α] (c comp : Comp α) (fuel : Nat) (d : Array α) (i : Int)
+    (hi : i < 0) : Heap_Convert_loop1 c comp (fuel + 1) d i = Out.ok (d, i) := by
+  unfold Heap_Convert_loop1
+  have : ¬ (i ≥ 0) := by omega
+  simp [this]
+
+example : (-1 : Int) < 0 := by decide
+
+/-- Go's `(size - 2) / 2` (truncating) is the model's `k - 1`, `k = (convertStart size + 1).toNat`, and `k ≤ ⌈size/2⌉` -/
+theorem convertStart_spec (size : Nat) :
+    ((size : Int) - 2).tdiv 2 = (((Model.Heap.convertStart size + 1).toNat : Nat) : Int) - 1 ∧
+    (Model.Heap.convertStart size + 1).toNat ≤ (size + 1) / 2 := by
+  unfold Model.Heap.convertStart
+  match size with
+  | 0 => decide
+  | 1 => decide
+  | m + 2 =>
+    have e : ((m + 2 : Nat) : Int) - 2 = (m : Int) := by omega
+    rw [e, Int.tdiv_eq_ediv_of_nonneg (by omega)]
+    omega
+
+/-- `Convert(comp)` for every fuel ≥ `len(data) + ⌈len(data)/2⌉ + 1`: the new comparator and the new `data`,
+every outcome included. -/
+theorem convert_tie [Inhabited α] [DecidableEq α] (h : Model.Heap.Heap α) (comp : Comp α) (fuel : Nat)
+    (hf : h.data.size + (h.data.size + 1) / 2 + 1 ≤ fuel) :
+    Heap_Convert fuel h.comp h.data comp
+      = toOut (Outcome.map (fun h' => (h'.comp, h'.data)) (Model.Heap.convert h comp)) := by
+  unfold Heap_Convert Model.Heap.convert Heap_size
+  obtain ⟨hs, hk⟩ := convertStart_spec h.data.size
+  simp only [hs]
+  rw [convert_loop_tie_full comp comp _ h.data fuel (by omega)]
+  cases Model.Heap.convertLoop comp (Model.Heap.convertStart h.data.size + 1).toNat h.data <;>
+    simp [Outcome.map]
+
+example : (#[3, 1, 2] : Array Int).size + ((#[3, 1, 2] : Array Int).size + 1) / 2 + 1 ≤ 6 := by decide
+
+/-- the same with the rounder bound `2 * len(data) + 1` -/
+theorem convert_tie_2n [Inhabited α] [DecidableEq α] (h : Model.Heap.Heap α) (comp : Comp α) (fuel : Nat)
+    (hf : 2 * h.data.size + 1 ≤ fuel) :
+    Heap_Convert fuel h.comp h.data comp
+      = toOut (Outcome.map (fun h' => (h'.comp, h'.data)) (Model.Heap.convert h comp)) :=
+  convert_tie h comp fuel (by omega)
+
+example : 2 * (#[3, 1, 2] : Array Int).size + 1 ≤ 7 := by decide
+
+/-! ## `getIndex` and `Delete` -/
+
+/-- The regenerated loop of `getIndex`, started at `i`, against the model's structural `getIndexL` on the rest of
+the slice: the early `return i, true` (`some`) or the fall-through with the loop variable at `len(slice)`.  One
+unit of fuel per iteration plus one for the final test. -/
+theorem getIndex_loop_tie [Inhabited α] [DecidableEq α] (c : Comp α) (d slice : Array α) (val : α) :
+    ∀ (fuel i : Nat), i ≤ slice.size → slice.size - i + 1 ≤ fuel →
+    Heap_getIndex_loop1 c d slice val fuel (i : Int)
+      = Out.ok (match Model.Heap.getIndexL val (slice.toList.drop i) i with
+          | some k => (some ((k : Int), true), (k : Int))
+          | none => (none, (slice.size : Int))) := by
+  intro fuel
+  induction fuel with
+  | zero => intro i _ hf; omega
+  | succ fuel ih =>
+    intro i hi hf
+    unfold Heap_getIndex_loop1
+    by_cases hlt : i < slice.size
+    · have hlt' : (i : Int) < (slice.size : Int) := by omega
+      simp only [hlt', if_true, hIdx_nat]
+      have hget : slice[i]? = some slice[i] := by simp [hlt]
+      rw [hget, List.drop_eq_getElem_cons (by simpa using hlt)]
+      simp only [bind_optOut_some, Model.Heap.getIndexL, Array.getElem_toList]
+      by_cases he : slice[i] = val
+      · simp [he]
+      · simp only [he, if_false]
+        have := ih (i + 1) (by omega) (by omega)
+        simpa using this
+    · have : i = slice.size := by omega
+      subst this
+      have hd : slice.toList.drop slice.size = [] := List.drop_eq_nil_of_le (by simp)
+      simp [hd, Model.Heap.getIndexL]
+
+example : (0 : Nat) ≤ (#[3, 1] : Array Int).size ∧ (#[3, 1] : Array Int).size - 0 + 1 ≤ 3 := by decide
+
+/-- an index found by the model's scan started at `i` lies in `[i, i + len)` -/
+theorem getIndexL_range [DecidableEq α] (val : α) (l : List α) (i k : Nat)
+    (h : Model.Heap.getIndexL val l i = some k) : i ≤ k ∧ k < i + l.length := by
+  induction l generalizing i with
+  | nil => simp [Model.Heap.getIndexL] at h
+  | cons x r ih =>
+    unfold Model.Heap.getIndexL at h
+    by_cases he : x = val
+    · simp only [he, if_true] at h
+      injection h with h
+      subst h
+      simp
+    · simp only [he, if_false] at h
+      have := ih (i + 1) h
+      simp only [List.length_cons]
+      omega
+
+example : Model.Heap.getIndexL (1 : Int) [3, 1] 0 = some 1 := by decide
+
+theorem getIndex_lt [DecidableEq α] (slice : Array α) (val : α) (k : Nat)
+    (h : Model.Heap.getIndex slice val = some k) : k < slice.size := by
+  have := (getIndexL_range val slice.toList 0 k h).2
+  simpa using this
+
+example : Model.Heap.getIndex (#[3, 1] : Array Int) 1 = some 1 := by decide
+
+/-- `getIndex(slice, val)` for every fuel ≥ `len(slice) + 1`: `(k, true)` at the first occurrence, `(-1, false)`
+when there is none (never a panic, never a hang). -/
+theorem getIndex_tie [Inhabited α] [DecidableEq α] (c : Comp α) (d slice : Array α) (val : α) (fuel : Nat)
+    (hf : slice.size + 1 ≤ fuel) :
+    Heap_getIndex fuel c d slice val
+      = Out.ok (match Model.Heap.getIndex slice val with
+          | some k => ((k : Int), true)
+          | none => (-1, false)) := by
+  unfold Heap_getIndex Model.Heap.getIndex
+  have := getIndex_loop_tie c d slice val fuel 0 (by omega) (by omega)
+  simp only [Int.natCast_zero, List.drop_zero] at this
+  simp only [this]
+  cases Model.Heap.getIndexL val slice.toList 0 <;> simp
+
+example : (#[3, 1] : Array Int).size + 1 ≤ 3 := by decide
+
+/-- `Delete(val)` for every fuel ≥ `len(data) + 1`: the `bool`, whether the `error` is non-nil (exactly when the
+`bool` is `false`) and the new `data`; every outcome included. -/
+theorem delete_tie [Inhabited α] [DecidableEq α] (h : Model.Heap.Heap α) (val : α) (fuel : Nat)
+    (hf : h.data.size + 1 ≤ fuel) :
+    Heap_Delete fuel h.comp h.data val
+      = toOut (Outcome.map (fun r => (r.2, !r.2, r.1.data)) (Model.Heap.delete h val)) := by
+  unfold Heap_Delete Model.Heap.delete Heap_size
+  by_cases h0 : h.data.size = 0
+  · simp [h0, Outcome.map]
+  · have hne : ¬ ((h.data.size : Int) = 0) := by omega
+    have hl : (h.data.size : Int) - 1 = ((h.data.size - 1 : Nat) : Int) := by omega
+    simp only [h0, hne, if_false, getIndex_tie h.comp h.data h.data val fuel hf, bind_ok, hl]
+    cases hg : Model.Heap.getIndex h.data val with
+    | none => simp [Outcome.map]
+    | some idx =>
+      simp only [Bool.not_true, Bool.false_eq_true, if_false, swap_tie]
+      cases hs : Model.Heap.swap h.data idx (h.data.size - 1) with
+      | none => simp [Outcome.map]
+      | some d1 =>
+        have hsz1 : d1.size = h.data.size := by
+          unfold Model.Heap.swap at hs
+          split at hs
+          · injection hs with hs
+            subst hs
+            simp
+          · simp at hs
+        have hsl : hSlice d1 0 ((h.data.size - 1 : Nat) : Int) = optOut (Model.Heap.dropLast? d1) := by
+          rw [← hSlice_dropLast, hsz1, hl]
+        simp only [bind_optOut_some, hsl]
+        cases hd : Model.Heap.dropLast? d1 with
+        | none => simp [Outcome.map]
+        | some d2 =>
+          have hmd := moveDown_tie h.comp fuel d2 (h.data.size - 1) 0
+          simp only [Int.natCast_zero] at hmd
+          simp only [bind_optOut_some]
+          rw [hmd, moveDownF_enough h.comp (h.data.size - 1) d2 0 fuel (by omega)]
+          cases Model.Heap.moveDown h.comp (h.data.size - 1) d2 0 <;> simp [Outcome.map]
+
+example : (#[3, 1] : Array Int).size + 1 ≤ 3 := by decide
+
+/-! ## `FromSlice` -/
+
+/-- The regenerated inner `for { … }` of `FromSlice` is the model's `fsInner`: every outcome, the value the loop
+leaves in `i` included, for every amount of fuel.  (The regenerated test `l >= len(data) || l < 0`: `l < 0` is dead
+for `i ≥ 0`.) -/
+theorem fromSlice_inner_tie [Inhabited α] [DecidableEq α] (c : Comp α) (fuel : Nat) (d : Array α) (i : Nat) :
+    FromSlice_loop2 c fuel d (i : Int)
+      = toOut (Outcome.map (fun r => (r.1, ((r.2 : Nat) : Int))) (Model.Heap.fsInner c fuel d i)) := by
+  induction fuel generalizing d i with
+  | zero => simp [FromSlice_loop2, Model.Heap.fsInner, Outcome.map]
+  | succ fuel ih =>
+    unfold FromSlice_loop2 Model.Heap.fsInner
+    have e1 : (2 : Int) * (i : Int) + 1 = ((2 * i + 1 : Nat) : Int) := by omega
+    have e2 : (2 : Int) * (i : Int) + 2 = ((2 * i + 2 : Nat) : Int) := by omega
+    simp only [e1, e2]
+    by_cases hl : 2 * i + 1 ≥ d.size
+    · have hl' : ((2 * i + 1 : Nat) : Int) ≥ (d.size : Int) := by omega
+      simp only [hl, hl', decide_true, Bool.true_or, if_true, Outcome.map, toOut_ok]
+    · have hl' : ¬ ((2 * i + 1 : Nat) : Int) ≥ (d.size : Int) := by omega
+      have hl'' : ¬ ((2 * i + 1 : Nat) : Int) < 0 := by omega
+      simp only [hl, hl', hl'', decide_false, Bool.or_self, Bool.false_eq_true, if_false]
+      rw [pick_bridge]
+      cases Model.Heap.pick c d.size d (2 * i + 1) (2 * i + 2) with
+      | none => simp [Outcome.map]
+      | some cur =>
+        simp only [Option.map, bind_optOut_some, hIdx_nat]
+        cases d[cur]? with
+        | none => cases d[i]? <;> simp [Outcome.map]
+        | some x =>
+          cases d[i]? with
+          | none => simp [Outcome.map]
+          | some y =>
+            simp only [bind_optOut_some]
+            by_cases hc : c x y = true
+            · simp only [hc, if_true, Bool.not_true, Bool.false_eq_true, if_false, swap_tie]
+              cases Model.Heap.swap d i cur with
+              | none => simp [Outcome.map]
+              | some d' => simp only [bind_optOut_some, ih]
+            · simp [hc, Outcome.map]
+
+/-- an outcome of the inner loop other than `hang` does not depend on the fuel -/
+theorem fsInner_mono (c : Comp α) (fuel k : Nat) (d : Array α) (i : Nat)
+    (h : Model.Heap.fsInner c fuel d i ≠ .hang) :
+    Model.Heap.fsInner c (fuel + k) d i = Model.Heap.fsInner c fuel d i := by
+  induction fuel generalizing d i with
+  | zero => simp [Model.Heap.fsInner] at h
+  | succ fuel ih =>
+    have e : fuel + 1 + k = (fuel + k) + 1 := by omega
+    rw [e]
+    unfold Model.Heap.fsInner at h ⊢
+    by_cases hl : 2 * i + 1 ≥ d.size
+    · simp [hl]
+    · simp only [hl, if_false] at h ⊢
+      cases hp : Model.Heap.pick c d.size d (2 * i + 1) (2 * i + 2) with
+      | none => rfl
+      | some cur =>
+        simp only [hp] at h ⊢
+        cases hx : d[cur]? with
+        | none => cases d[i]? <;> rfl
+        | some x =>
+          cases hy : d[i]? with
+          | none => rfl
+          | some y =>
+            simp only [hx, hy] at h ⊢
+            by_cases hc : c x y = true
+            · simp only [hc, Bool.not_true, Bool.false_eq_true, if_false] at h ⊢
+              cases hs : Model.Heap.swap d i cur with
+              | none => rfl
+              | some d' =>
+                simp only [hs] at h ⊢
+                exact ih d' _ h
+            · simp [hc]
+
+example : Model.Heap.fsInner (fun a b : Int => decide (a < b)) 2 #[3, 1] 0 ≠ .hang := by
+  simp [Model.Heap.fsInner, Model.Heap.pick, Model.Heap.swap]
+
+/-- the inner loop keeps the length -/
+theorem fsInner_size (c : Comp α) (fuel : Nat) (d : Array α) (i : Nat) (d' : Array α) (i' : Nat)
+    (h : Model.Heap.fsInner c fuel d i = .ok (d', i')) : d'.size = d.size := by
+  induction fuel generalizing d i with
+  | zero => simp [Model.Heap.fsInner] at h
+  | succ fuel ih =>
+    unfold Model.Heap.fsInner at h
+    by_cases hl : 2 * i + 1 ≥ d.size
+    · simp only [hl, if_true] at h
+      injection h with h
+      injection h with h1 h2
+      rw [h1]
+    · simp only [hl, if_false] at h
+      cases hp : Model.Heap.pick c d.size d (2 * i + 1) (2 * i + 2) with
+      | none => simp [hp] at h
+      | some cur =>
+        simp only [hp] at h
+        cases hx : d[cur]? with
+        | none => cases hy : d[i]? <;> simp [hx, hy] at h
+        | some x =>
+          cases hy : d[i]? with
+          | none => simp [hx, hy] at h
+          | some y =>
+            simp only [hx, hy] at h
+            by_cases hc : c x y = true
+            · simp only [hc, Bool.not_true, Bool.false_eq_true, if_false] at h
+              cases hs : Model.Heap.swap d i cur with
+              | none => simp [hs] at h
+              | some d1 =>
+                simp only [hs] at h
+                rw [ih d1 cur h]
+                exact GoguVerif.Lemmas.C03.swap_size hs
+            · simp only [hc, Bool.not_false, if_true] at h
+              injection h with h
+              injection h with h1 h2
+              rw [h1]
+
+example : Model.Heap.fsInner (fun a b : Int => decide (a < b)) 2 #[3, 1] 0 = .ok (#[1, 3], 1) := by
+  simp [Model.Heap.fsInner, Model.Heap.pick, Model.Heap.swap]
+
+/-- The inner loop never runs out of a budget `≥ max 1 (len(data) - i)`: `i` at least doubles at every iteration
+and the loop breaks once `2i + 1 ≥ len(data)` (no hypothesis on the comparator). -/
+theorem fsInner_ne_hang (c : Comp α) (fuel : Nat) (d : Array α) (i : Nat) (h1 : 1 ≤ fuel)
+    (hf : d.size - i ≤ fuel) : Model.Heap.fsInner c fuel d i ≠ .hang := by
+  induction fuel generalizing d i with
+  | zero => omega
+  | succ fuel ih =>
+    unfold Model.Heap.fsInner
+    by_cases hl : 2 * i + 1 ≥ d.size
+    · simp [hl]
+    · simp only [hl, if_false]
+      cases hp : Model.Heap.pick c d.size d (2 * i + 1) (2 * i + 2) with
+      | none => simp
+      | some cur =>
+        simp only
+        cases hx : d[cur]? with
+        | none => cases d[i]? <;> simp
+        | some x =>
+          cases hy : d[i]? with
+          | none => simp
+          | some y =>
+            simp only
+            by_cases hc : c x y = true
+            · simp only [hc, Bool.not_true, Bool.false_eq_true, if_false]
+              cases hs : Model.Heap.swap d i cur with
+              | none => simp
+              | some d' =>
+                simp only
+                have hsz := GoguVerif.Lemmas.C03.swap_size hs
+                have hcur : cur = 2 * i + 1 ∨ (cur = 2 * i + 2 ∧ 2 * i + 2 < d.size) := by
+                  rcases GoguVerif.Lemmas.C03.pick_spec hp with ⟨e, _⟩ | ⟨e, hr, _⟩
+                  · exact Or.inl e
+                  · exact Or.inr ⟨e, hr⟩
+                exact ih d' cur (by omega) (by omega)
+            · simp [hc]
+
+example : (1 : Nat) ≤ 2 ∧ (#[3, 1] : Array Int).size - 0 ≤ 2 := by decide
+
+/-- The regenerated outer loop of `FromSlice` (its inner loop runs on what remains of the outer loop's fuel)
+against the model's `fsOuter c F` (whose inner loop gets `len(data)`): whenever the model's loop does not run out
+of ITS fuel `F`, the regenerated loop with any fuel ≥ `F + len(data)` computes the same outcome (data or panic),
+and leaves `-1` in the loop variable (or the start value, when that is negative: no iteration).
+`0 < len(data) ∨ i < 0`: on the empty slice with `i ≥ 0` the model's inner loop has no fuel at all. -/
+theorem fromSlice_outer_tie [Inhabited α] [DecidableEq α] (c : Comp α) (F : Nat) :
+    ∀ (d : Array α) (i : Int) (fuel : Nat), (0 < d.size ∨ i < 0) →
+    Model.Heap.fsOuter c F d i ≠ .hang → F + d.size ≤ fuel →
+    FromSlice_loop1 c fuel d i
+      = Out.bind (toOut (Model.Heap.fsOuter c F d i))
+          (fun d' => Out.ok (d', if i < 0 then i else (-1 : Int))) := by
+  induction F with
+  | zero => intro d i fuel _ h; simp [Model.Heap.fsOuter] at h
+  | succ F ih =>
+    intro d i fuel hd hnh hf
+    obtain ⟨f, rfl⟩ : ∃ f, fuel = f + 1 := ⟨fuel - 1, by omega⟩
+    unfold FromSlice_loop1
+    unfold Model.Heap.fsOuter at hnh ⊢
+    by_cases hi : i < 0
+    · have : ¬ (i ≥ 0) := by omega
+      simp [hi, this]
+    · have hi' : i ≥ 0 := by omega
+      have hpos : 0 < d.size := by
+        rcases hd with h | h
+        · exact h
+        · omega
+      obtain ⟨n, rfl⟩ : ∃ n : Nat, i = (n : Int) := ⟨i.toNat, by omega⟩
+      simp only [hi, hi', if_true, if_false, Int.toNat_natCast, fromSlice_inner_tie] at hnh ⊢
+      have hin := fsInner_ne_hang c d.size d n (by omega) (by omega)
+      have hm := fsInner_mono c d.size (f - d.size) d n hin
+      have e : d.size + (f - d.size) = f := by omega
+      rw [e] at hm
+      rw [hm]
+      cases hr : Model.Heap.fsInner c d.size d n with
+      | ok r =>
+        obtain ⟨d', i'⟩ := r
+        simp only [hr] at hnh
+        have hsz := fsInner_size c d.size d n d' i' hr
+        have hlast : (if (i' : Int) - 1 < 0 then (i' : Int) - 1 else -1) = -1 := by
+          split <;> omega
+        simp only [Outcome.map, toOut_ok, bind_ok]
+        rw [ih d' ((i' : Int) - 1) f (Or.inl (by omega)) hnh (by omega)]
+        simp only [hlast]
+      | panic => simp [Outcome.map]
+      | hang => exact absurd hr hin
+
+example : (0 < (#[3, 1] : Array Int).size ∨ (0 : Int) < 0) ∧
+    Model.Heap.fsOuter (fun a b : Int => decide (a < b)) 5 #[3, 1] 0 ≠ .hang ∧
+    5 + (#[3, 1] : Array Int).size ≤ 7 := by
+  refine ⟨Or.inl (by decide), ?_, by decide⟩
+  simp [Model.Heap.fsOuter, Model.Heap.fsInner, Model.Heap.pick, Model.Heap.swap]
+
+/-- `FromSlice(data, comp)`: the comparator, the new heap's `data` and the written argument slice (the same array).
+
+PARTIAL.  The full statement would be, for every comparator,
+`fsFuel data.size + data.size ≤ fuel → FromSlice fuel data comp = toOut (Outcome.map … (fromSlice data comp))`.
+What is proved is that statement under `fromSlice data comp ≠ .hang`, i.e. whenever the model's outer loop ends
+(with data or with a panic) within the `fsFuel len(data) = len(data)² + 1` iterations the model gives it.
+What is MISSING is the case where the model answers `hang`: there one would need "the regenerated loop hangs for
+EVERY fuel", i.e. "a `FromSlice` outer loop that has not ended after `len(data)² + 1` iterations never ends".
+That is true for a strict weak order vacuously (`fromSlice_spec`: it always ends, see `fromSlice_tie_swo`), and
+the loop really can spin for ever for another comparator (`comp = fun _ _ => true` on 3 elements: the inner loop
+moves `i` from 0 to 2, the outer `i--` brings it back to 0), but for an arbitrary comparator nothing says that an
+outer loop that does end ends within `len(data)² + 1` iterations, so the unconditional statement may be false. -/
+theorem fromSlice_tie_partial [Inhabited α] [DecidableEq α] (data : Array α) (comp : Comp α) (fuel : Nat)
+    (hnh : Model.Heap.fromSlice data comp ≠ .hang)
+    (hf : Model.Heap.fsFuel data.size + data.size ≤ fuel) :
+    FromSlice fuel data comp
+      = toOut (Outcome.map (fun h' => (h'.comp, h'.data, h'.data)) (Model.Heap.fromSlice data comp)) := by
+  unfold FromSlice
+  unfold Model.Heap.fromSlice at hnh ⊢
+  have hstart : 0 < data.size ∨ (data.size : Int).tdiv 2 - 1 < 0 := by
+    rcases Nat.eq_zero_or_pos data.size with h | h
+    · right; rw [h]; decide
+    · exact Or.inl h
+  have hno : Model.Heap.fsOuter comp (Model.Heap.fsFuel data.size) data ((data.size : Int).tdiv 2 - 1) ≠ .hang := by
+    intro hh
+    rw [hh] at hnh
+    exact hnh rfl
+  simp only [fromSlice_outer_tie comp _ data _ fuel hstart hno hf]
+  cases Model.Heap.fsOuter comp (Model.Heap.fsFuel data.size) data ((data.size : Int).tdiv 2 - 1) <;>
+    simp [Outcome.map]
+
+example : Model.Heap.fromSlice (#[3, 1] : Array Int) (fun a b => decide (a < b)) ≠ .hang ∧
+    Model.Heap.fsFuel (#[3, 1] : Array Int).size + (#[3, 1] : Array Int).size ≤ 7 := by
+  refine ⟨?_, by decide⟩
+  simp [Model.Heap.fromSlice, Model.Heap.fsFuel, Model.Heap.fsOuter, Model.Heap.fsInner, Model.Heap.pick,
+    Model.Heap.swap]
+
+/-- `FromSlice(data, comp)` for a strict weak order (the comparators C03 is about) and every fuel ≥
+`len(data)² + 1 + len(data)`: no hypothesis on the outcome (`fromSlice_spec`: it is always `ok`). -/
+theorem fromSlice_tie_swo [Inhabited α] [DecidableEq α] (data : Array α) (comp : Comp α)
+    (hc : GoguVerif.Spec.C03.SWO comp) (fuel : Nat)
+    (hf : Model.Heap.fsFuel data.size + data.size ≤ fuel) :
+    FromSlice fuel data comp
+      = toOut (Outcome.map (fun h' => (h'.comp, h'.data, h'.data)) (Model.Heap.fromSlice data comp)) := by
+  apply fromSlice_tie_partial data comp fuel _ hf
+  obtain ⟨h', e, _⟩ := GoguVerif.Lemmas.C03.fromSlice_spec data comp hc
+  rw [e]
+  simp
+
+example : GoguVerif.Spec.C03.SWO (fun a b : Int => decide (a < b)) ∧
+    Model.Heap.fsFuel (#[3, 1] : Array Int).size + (#[3, 1] : Array Int).size ≤ 7 := by
+  refine ⟨⟨?_, ?_, ?_⟩, by decide⟩
+  · intro a; simp
+  · intro a b c h1 h2; simp at *; omega
+  · intro a b c h1 h2; simp at *; omega
 
 end GoguVerif.Theorems.GenTieHeap
